@@ -12,13 +12,12 @@ package main
 //   tp-wire          extension 57 carries exactly the spec's parameters after suppression:
 //                    same ids (GREASE included), same values, in spec order -- or, with
 //                    RandomizeTransportParameters, a permutation of them
-//   tp-slice         the slice left in the spec after the dial is, in order, what was sent
 //   tp-suppressed    no suppressed id (no GREASE id when 27 is listed) is on the wire
 //   ids-canonical    QUICSpec.TransportParameterIDs() == sort(canon(wire ids)), both when
 //                    called before the dial and after it
 //   id-unstable      clienthellod's fingerprint id is the same on every dial of a QUICID
 //   id-recorded      ... and equals QUICID.Fingerprint where that was recorded with it
-//   reuse-<m>        the monitors tp-wire, tp-slice, tp-suppressed, ids-canonical on the second
+//   reuse-<m>        the monitors tp-wire, tp-suppressed, ids-canonical on the second
 //                    and third dial of ONE spec object (the caller may have edited the
 //                    suppression list in between), under their own keys
 //   reuse-order      a reused spec with RandomizeTransportParameters sends a fresh order
@@ -477,14 +476,32 @@ func fpNormU16List(b []byte) []byte { // every aligned 16-bit unit GREASE-normal
 	return out
 }
 
-// fpUTLSHello asks uTLS for the ClientHello of the spec (post-dial state: the transport
-// parameter extension has its bytes cached, so it reproduces them; key shares are redrawn).
-func fpUTLSHello(chs *tls.ClientHelloSpec, serverName string) (raw []byte, err error) {
+// fpUTLSHello asks uTLS for the ClientHello of the spec. The content of extension 57 is the
+// subject of tp-wire, not of claim (a): the oracle gets a copy of the spec whose transport
+// parameter extension carries the parameters seen on the wire as raw parameters (so lengths,
+// and with them a Boring-style padding extension, come out the same whether or not the dial
+// left its suppressed / permuted / filled-in list in the spec). Key shares are redrawn.
+func fpUTLSHello(orig *tls.ClientHelloSpec, wireParams []fpParam, serverName string) (raw []byte, err error) {
 	defer func() {
 		if r := recover(); r != nil {
 			err = fmt.Errorf("uTLS panic: %v", r)
 		}
 	}()
+	c := *orig
+	chs := &c
+	chs.Extensions = append([]tls.TLSExtension{}, orig.Extensions...)
+	for i, e := range chs.Extensions {
+		if _, ok := e.(*tls.QUICTransportParametersExtension); ok {
+			var l tls.TransportParameters
+			for _, p := range wireParams {
+				if p.ID == 0 {
+					return nil, fmt.Errorf("parameter id 0 on the wire")
+				}
+				l = append(l, &tls.FakeQUICTransportParameter{Id: p.ID, Val: p.Val})
+			}
+			chs.Extensions[i] = &tls.QUICTransportParametersExtension{TransportParameters: l}
+		}
+	}
 	uq := tls.UQUICClient(&tls.QUICConfig{TLSConfig: &tls.Config{ServerName: serverName, NextProtos: []string{simALPN}, InsecureSkipVerify: true, MinVersion: tls.VersionTLS13}}, tls.HelloCustom)
 	if err := uq.ApplyPreset(chs); err != nil {
 		return nil, err
@@ -647,10 +664,6 @@ func fpDialOnce(rep *fpReporter, sp *quic.QUICSpec, c fpDialCfg, dialNo int) *fp
 			}
 		}
 	}
-	post := fpSnapshot(ext)
-	if !fpSameOrder(post, o.Wire) {
-		rep.fail(kw+"tp-slice", "the parameter slice left in the spec after the dial is not what was sent", detail()+" slice="+fpParamsString(post))
-	}
 	canon := fpCanonIDs(o.Wire)
 	if c.IDsBefore && !fpEqU64(idsBefore, canon) {
 		rep.fail(kw+"ids-canonical", fmt.Sprintf("TransportParameterIDs() before the dial = %v, canonicalised wire = %v", idsBefore, canon), detail())
@@ -712,7 +725,7 @@ func runSimFingerprint(w *bufio.Writer, seed uint64, n int, args []string) {
 			orders[strings.Join(ord, ",")]++
 			if i < 12 || r.Chance(1, 8) { // claim (a): uTLS as oracle
 				nOracle++
-				oraw, err := fpUTLSHello(sp.ClientHelloSpec, "localhost")
+				oraw, err := fpUTLSHello(sp.ClientHelloSpec, o.Wire, "localhost")
 				if err != nil {
 					rep.fail(k+"hello-vs-utls", "uTLS oracle failed: "+err.Error(), c.String())
 				} else if oh, err := fpParseHello(oraw); err != nil {
